@@ -568,7 +568,7 @@ fn run_script(rep: &mut Report, sc: &Script, sample: bool) {
 pub fn meta() -> CheckMeta {
     CheckMeta {
         level: "exploration",
-        rule: "script = a raw scripted peer (reference codec) feeding a real server Session (as client) or a real client Session (as server) with SYN/PSH/FIN for up to 16 live streams (ids incl. 0, 2^32-1, ids reused after FIN; every payload byte tagged by its stream instance) interleaved with hostile but well-formed frames: PSH/FIN/SYNACK for ids never opened or already finished, duplicate SYN, SYN towards a client, unknown command bytes, waste with a live id, stray keep-alives and settings; random scripts plus, for clean scripts, every hostile kind inserted at every frame boundary; 3 transport fragmentation classes. Oracle at quiescence: every stream instance not hit by its own duplicate SYN read exactly the bytes addressed to it, ended iff its own FIN was sent, and the session is still alive. Plus C01's cooperative workload with 2-16 concurrent streams (online per-byte tag check). distinct_nontrivial = distinct scripts / cases. Abandoned readers: 2-5 streams in a row (client or server role, one session or a fresh session each) are sent 8-65535 tagged bytes and a FIN; the consumer of all but the last reads 0-40 bytes in 7-byte reads and drops the stream with the rest unread; every later stream must read exactly its own bytes from offset 0, the last one to its end.".into(),
+        rule: "script = a raw scripted peer (reference codec) feeding a real server Session (as client) or a real client Session (as server) with SYN/PSH/FIN for up to 16 live streams (ids incl. 0, 2^32-1, ids reused after FIN; every payload byte tagged by its stream instance) interleaved with hostile but well-formed frames: PSH/FIN/SYNACK for ids never opened or already finished, duplicate SYN, SYN towards a client, unknown command bytes, waste with a live id, stray keep-alives and settings; random scripts plus, for clean scripts, every hostile kind inserted at every frame boundary; 3 transport fragmentation classes. Oracle at quiescence: every stream instance not hit by its own duplicate SYN read exactly the bytes addressed to it, ended iff its own FIN was sent, and the session is still alive. Plus C01's cooperative workload with 2-16 concurrent streams (online per-byte tag check). distinct_nontrivial = distinct scripts / cases. Abandoned readers: 2-5 streams in a row (client or server role, one session or a fresh session each) are sent 8-65535 tagged bytes and a FIN; the consumer of all but the last reads 0-40 bytes in 7-byte reads and drops the stream with the rest unread; every later stream must read exactly its own bytes from offset 0, the last one to its end. The cooperative mux cases include transports that stall for 3-130 virtual seconds and recover (see C01).".into(),
         assumptions: vec!["a duplicate SYN or FIN for id a may end id a; only other ids are judged in that case".into(), "alerts are excluded here (they end the session by design, C09)".into()],
         floors: vec![("hostile_frames_sent", 2000), ("bytes_compared", 500_000), ("scripts_against_server_session", 300), ("scripts_against_client_session", 300), ("cooperative_multi_stream_cases", 50), ("streams_opened_after_an_abandoned_one", 100)],
         exhaustive: false,
